@@ -16,8 +16,8 @@ for p in allp:
             evidence_file='/verif/evidence/%s.json' % pid,
             replay_cmd_template='./check replay {path}',
             engine='coq-model+k1',
-            level_claimed=dict(category='proof', text=P.get('level_text', ''), design_ref=P.get('design_ref', 'DESIGN.md §4 ' + pid)),
-            level_note=P.get('level_note', ''),
+            level_claimed=dict(category='proof', text=P.get('level_text') or props.default_level_text(pid, P), design_ref=P.get('design_ref', 'DESIGN.md §4 ' + pid)),
+            level_note=P.get('level_note') or props.default_level_note(pid, P),
             technique=P.get('technique', 'Rocq/Coq theorems over an executable model of the macro, tied to /repo by token-level differential correspondence (K1)'),
         ))
     else:
